@@ -43,7 +43,7 @@ def readerAdd (oracle : List (Bytes × String)) (r : Bytes × Bool) (data : Byte
   let ct := buf.getD 0 0
   let recLen := (buf.getD 3 0).toNat * 256 + (buf.getD 4 0).toNat
   let needed := recLen + 5
-  if ct != 0x16 then ((buf, false), .pending) else
+  if ct != 0x16 then (([], false), .pending) else
   if buf.length < needed then ((buf, false), .pending) else
   if needed > 64 * 1024 then (([], false), .err) else
   match oracle.lookup (buf.take needed) with
